@@ -64,7 +64,8 @@ fn same(a: &[BaseElement; STATE_WIDTH], b: &[BaseElement; STATE_WIDTH]) -> bool 
     let mut ok = true;
     let mut i = 0;
     while i < STATE_WIDTH {
-        ok = ok && inner(&a[i]) == inner(&b[i]);
+        // f62 keeps elements lazily reduced in [0, 2M): compare field values, not representations
+        ok = ok && inner(&a[i]) % 4611624995532046337 == inner(&b[i]) % 4611624995532046337;
         i += 1;
     }
     ok
@@ -85,7 +86,7 @@ pub fn k_c16_rp62_merge_rules() {
     want[0..4].copy_from_slice(ae);
     want[4..8].copy_from_slice(be);
     vcheck!("C16.rp62.merge.state", calls() == 1 && same(&snap(0), &want));
-    vcheck!("C16.rp62.merge.digest_is_state_words_0_to_4", inner(&d.as_elements()[0]) == inner(&ae[0]) && inner(&d.as_elements()[3]) == inner(&ae[3]));
+    vcheck!("C16.rp62.merge.digest_is_state_words_0_to_4", inner(&d.as_elements()[0]) % 4611624995532046337 == inner(&ae[0]) % 4611624995532046337 && inner(&d.as_elements()[3]) % 4611624995532046337 == inner(&ae[3]) % 4611624995532046337);
     // merging two digests equals hashing their eight elements
     reset();
     let els = [ae[0], ae[1], ae[2], ae[3], be[0], be[1], be[2], be[3]];
